@@ -10,7 +10,7 @@ META = dict(
                        "pydra.compose.shell.builder.define (dynamic definitions)"],
     stubs=[],
     outside=["string values outside the safe pool (C23 owns arbitrary characters)", "formatter callables, File-typed fields, "
-             "more than 4 fields, lists longer than 3", "empty strings ('set' is ambiguous for them)"],
+             "more than 4 fields with list kinds (wide definitions use str / int / flag fields only), lists longer than 3", "empty strings ('set' is ambiguous for them)"],
     assumptions=["string elements are drawn by symbolic index from a pool of shell-safe tokens; ints are unbounded symbolic; "
                  "field definitions are generated concretely (seeded) and fixed per condition"],
 )
@@ -59,6 +59,27 @@ def build(tier, seed, exclude):
             err = _argv(_TASK{d}, _SPECS{d}, {raw}, ["--tail"] if extra else [])
             return T.fail(err) if err else True
         """, timeout=to)
+    # wide definitions (9-12 fields, most explicitly positioned, 2-4 unpositioned in between) and definitions in which a template
+    # also names the first element of another, list-valued field
+    nwide, nxref = (4, 6) if quick else (16, 30)
+    extra_defs = [("wide", SD.gen_wide_specs(rnd)) for _ in range(nwide)] + [("xref", SD.gen_xref_specs(rnd, rnd.choice([2, 3, 4]))) for _ in range(nxref)]
+    for d, (kind, specs) in enumerate(extra_defs):
+        tag = f"{kind}{d:02d}"
+        g.raw(f"_SPECS_{tag} = {specs!r}\n_TASK_{tag} = SD.make_task(_SPECS_{tag}, name='Gen_{tag}')")
+        params = ", ".join(f"{s['name']}: {SD.annotation(s)}" for s in specs)
+        pre = [" and ".join(SD.precondition(s, s["name"]) for s in specs)]
+        if "C22-falsy-number" in exclude:
+            nums = [s["name"] for s in specs if s["kind"] == "int"]
+            if nums:
+                pre.append(" and ".join(f"{n} != 0" for n in nums))
+        refs = [s["xref"] for s in specs if s.get("xref")]
+        if refs:
+            pre.append(" and ".join(f"len({r}) >= 1" for r in refs))        # the referenced list is set and non-empty
+        raw = "[" + ", ".join(s["name"] for s in specs) + "]"
+        g.cond(f"h_{tag}", params, pre, f"""
+            err = _argv(_TASK_{tag}, _SPECS_{tag}, {raw}, [])
+            return T.fail(err) if err else True
+        """, timeout=to * 2)
     # position_sort on its own: arbitrary positions
     g.cond("h_position_sort", "ps: List[Optional[int]]", ["len(ps) <= 5", "len(set(p for p in ps if p is not None)) == len([p for p in ps if p is not None])"], """
         ps = list(ps)
@@ -87,5 +108,5 @@ def build(tier, seed, exclude):
         err = _argv(SD.make_task(specs, name="W0"), specs, [0])
         return T.fail(err) if err else True
     """)
-    return g.spec(bounds={"definitions": ndefs, "fields per definition": "2-4", "list lengths": "0-3", "ints": "unbounded",
+    return g.spec(bounds={"definitions": ndefs, "fields per definition": "2-4 (plus wide definitions with 9-12 fields and definitions with a cross-referencing template)", "list lengths": "0-3", "ints": "unbounded",
                           "string tokens": SD.POOL})
